@@ -15,14 +15,13 @@ impl RequestHandler<CodeLensRequest> for CodeLensRequestHandler {
         ctx: &mut LspContext,
         params: CodeLensParams,
     ) -> MosResult<Option<Vec<CodeLens>>> {
-        let tests = enumerate_test_cases(
-            ctx.parsing_source(),
-            &params.text_document.uri.to_file_path().unwrap(),
-        )
-        .unwrap_or_default();
+        let path = params.text_document.uri.to_file_path().unwrap();
+        let tests = enumerate_test_cases(ctx.parsing_source(), &path).unwrap_or_default();
 
         let result = tests
             .into_iter()
+            // Test cases in imported files are enumerated as well, but their locations do not refer to this document
+            .filter(|(sl, _)| std::path::Path::new(sl.file.name()) == path)
             .flat_map(|(sl, test_case_path)| {
                 let run = CodeLens {
                     range: to_range(sl.clone()),
